@@ -65,6 +65,7 @@ def run(ctx):
     for mode, cs in decode.fixed_corpus(ctx).items():
         decode.run_decode(ctx, cs, judge, annot=mode)
     decode.run_decode(ctx, NT_DICT_CORPUS, judge)
+    decode.run_decode(ctx, [(["leaf", "timezone"], ["s", x], "codec", "corpus") for x in ("UTC", "UTC\n", "UTC+03:00\n", " UTC", "UTC+03:00", "UTC-00:30 ")], judge)
     n, depth = (3000, 3) if ctx.tier == "quick" else (50000, 4)
     done = 0
     while done < n and ctx.time_left() > 30:
